@@ -111,11 +111,12 @@ type State struct {
 	gomaps map[int]bool
 	recovering bool
 	panicVal   string
+	walks      int
 }
 
 func (s *State) Clone() *State {
 	n := &State{pc: append([]string(nil), s.pc...), cells: make(map[int]Value, len(s.cells)), cellTy: s.cellTy,
-		stores: make(map[int]*Store, len(s.stores)), trace: append([]string(nil), s.trace...), recovering: s.recovering, panicVal: s.panicVal}
+		stores: make(map[int]*Store, len(s.stores)), trace: append([]string(nil), s.trace...), recovering: s.recovering, panicVal: s.panicVal, walks: s.walks}
 	for k, v := range s.cells {
 		n.cells[k] = v
 	}
